@@ -14,7 +14,7 @@ Theorem C04_valid_iff : forall e infos,
   Z.of_nat (length infos) <= max_fee_recipients /\
   forall o, In o infos ->
     exists f, o = Some f /\
-      (exists a, e_bech32 e (fi_recipient f) = Some a) /\
+      (exists a, e_bech32 e (fi_recipient f) = Some a /\ module_owned a = false) /\
       ((exists v, fi_type f = Some (FBps v) /\ 0 < v <= bps_normalizer) \/
        (exists s n, fi_type f = Some (FAmount s) /\ e_parse_int e s = Some n /\ 0 < n)).
 Proof. exact fee_attrs_valid_iff. Qed.
